@@ -34,7 +34,7 @@ func init() {
 		"DESIGN.md §5 C01, §4.3",
 		[]string{"fidelity of deepClone (a YAML round trip) on exotic strings", "type-sensitive == across formats (C04)", "chains of 3-4 layers beyond the induction (repeated application of the same entry)"},
 		[]string{"Trees are acyclic and layer sources are private copies (rules C02.indep / C08.acyclic)."},
-		ruleC01Kind, ruleC01Map, ruleC01List, ruleC01Match, ruleDeepClone, ruleMarkerHelpers("C01.marker"), rulePopListMarker("C01.popmarker"), ruleMergeSourcesPrivate("C01.indep"), ruleSmallContracts("C01.helper", "pophelpers"))
+		ruleC01Kind, ruleC01Map, ruleC01List, ruleC01Match, ruleDeepClone, ruleMarkerHelpers("C01.marker"), rulePopListMarker("C01.popmarker"), ruleMergeSourcesPrivate("C01.indep"), ruleSmallContracts("C01.helper", "pophelpers"), ruleListsRebuilt("C01.rebuilt"))
 
 	mk("C02", "Stream layering targets the right documents and treats each independently",
 		"path-effect summaries of MergeDocument (target selection table), ownership analysis of every call into the merge family (sources must be private deep copies), census of the writers of Parser.docs / Document.Parents; constant evaluation of the stream-separator patterns on a battery of lines",
@@ -106,7 +106,7 @@ func init() {
 		"DESIGN.md §5 C10",
 		[]string{"keys containing dots", "interaction of references with $output: false templates beyond the phase order"},
 		nil,
-		ruleC10Phase, ruleC10Dispatch, ruleC10Lookup, ruleC10ListRef, ruleC10Universe, ruleReferencesReadOnly, ruleC01Match, ruleSmallContracts("C10.helper", "matchdoc", "getcopy", "pophelpers"), ruleDroppedErrors)
+		ruleC10Phase, ruleC10Dispatch, ruleC10Lookup, ruleC10ListRef, ruleC10Universe, ruleReferencesReadOnly, ruleC01Match, ruleSmallContracts("C10.helper", "matchdoc", "getcopy", "pophelpers"), ruleDroppedErrors, ruleListsRebuilt("C10.rebuilt"))
 
 	mk("C11", "$output selects exactly the marked subtrees and hides exactly the excluded ones",
 		"path-effect summaries of findOutputs, filterOutput and outputDocument against the selection / hiding tables; contracts of the marker helpers (hasMapBoolValue, hasListMapBoolValue, popListMapBoolValue); YAML scalar table (boolean spellings)",
@@ -122,7 +122,7 @@ func init() {
 		"DESIGN.md §5 C12",
 		[]string{"equality with the hand-expanded document (needs C13 on values)"},
 		nil,
-		ruleC12Loops, ruleC12Docs, ruleCloneContract("C12.copy"), ruleC13Vars, ruleSmallContracts("C12.helper", "pophelpers"))
+		ruleC12Loops, ruleC12Docs, ruleCloneContract("C12.copy"), ruleC13Vars, ruleSmallContracts("C12.helper", "pophelpers"), ruleListsRebuilt("C12.rebuilt"))
 
 	mk("C13", "Interpolation and $env substitute exactly the referenced values",
 		"path-effect summaries of process2String, the interpolation callback (captured error cell), getWithVar, GetVar, envVars; census of the interpolation pattern literal",
@@ -141,20 +141,20 @@ func init() {
 		ruleC14, ruleC14Decode, ruleC07Encode("C14.validate"), ruleC04Normalised("C14.inverse"), ruleC04Float, ruleYamlScalars("C14.scalars"), ruleDroppedErrors, ruleSmallContracts("C14.helper", "pophelpers"))
 
 	mk("C15", "bkld round trip: base + bkld(base, target) evaluates to target",
-		"path-effect summaries of diff/diffDoc against the diff table; composition check diff-emits-wholesale x merge-accepts over kind pairs; nil-diff-implies-equal-sequence check; vocabulary agreement of emitted directives with the evaluator",
+		"path-effect summaries of diff/diffDoc against the diff table; contract of a hand-written entry comparison (equal sizes); composition check diff-emits-wholesale x merge-accepts over kind pairs; nil-diff-implies-equal-sequence check; vocabulary agreement of emitted directives with the evaluator",
 		"C15 decides the diff decision table, that every directive bkld emits is one merge recognises, that main diffs (target, base) and adds the document-level $match: {}, that wherever diff emits the target wholesale for a kind change merge accepts it, and that an empty list diff implies equal sequences.",
 		"DESIGN.md §5 C15",
 		[]string{"over-deletion by partial $delete patterns", "multiset/ordering semantics of list diffs beyond the nil case", "the round trip in general"},
 		nil,
-		ruleC15Table, ruleC15Seq, ruleC15Compose, ruleC15Dir, ruleMarkerVocabulary("C15.vocab", map[string][]string{"cmd/bkld": {"$delete", "$replace", "$match"}}), ruleC01List, ruleC01Match, ruleC04Census, ruleC04Canon)
+		ruleC15Table, ruleC15Seq, ruleC15Compose, ruleC15Dir, ruleMarkerVocabulary("C15.vocab", map[string][]string{"cmd/bkld": {"$delete", "$replace", "$match"}}), ruleC01List, ruleC01Match, ruleC04Census, ruleC04Canon, ruleStructuralEquality("C15.equal", "cmd/bkld"))
 
 	mk("C16", "bkli yields the maximal common base, and the migrate workflow is lossless",
-		"path-effect summaries of intersect against the intersection table, may-be-nil analysis of every container boxed into the result, per-element accumulation (loop-exit analysis), left fold in main, marker literal agreement with the validator",
+		"path-effect summaries of intersect and of bkld's diff against their tables, contract of a hand-written entry comparison (equal sizes), may-be-nil analysis of every container boxed into the result, per-element accumulation (loop-exit analysis), left fold in main, marker literal agreement with the validator",
 		"C16 decides the intersection table (nil, equal/different scalars, kind mismatch, map keys present in both, list membership), that a common list entry is accumulated once, that main folds the inputs left to right, and that the $required marker it emits is the one the evaluator rejects.",
 		"DESIGN.md §5 C16",
 		[]string{"maximality", "[] ∩ []", "the bkli + bkld + bkl round trip"},
 		nil,
-		ruleC16Table, ruleTypedNil("C16.typednil"), ruleC16Fold, ruleMarkerVocabulary("C16.marker", map[string][]string{"cmd/bkli": {"$required"}}), ruleValidate("C16"), ruleC01List, ruleC04Census, ruleC04Canon)
+		ruleC16Table, ruleTypedNil("C16.typednil"), ruleC16Fold, ruleMarkerVocabulary("C16.marker", map[string][]string{"cmd/bkli": {"$required"}}), ruleValidate("C16"), ruleC01List, ruleC04Census, ruleC04Canon, ruleStructuralEquality("C16.equal", "cmd/bkli", "cmd/bkld"), ruleC15Table)
 
 	mk("C17", "bklr keeps exactly the $required skeleton and agrees with bkl on what is missing",
 		"path-effect summaries of required against the skeleton table; marker literal agreement between bklr and the evaluator's validator",
@@ -173,12 +173,12 @@ func init() {
 		ruleC18Read, ruleC18Probe, ruleC18Root, ruleBklMainRoot, ruleSmallContracts("C18.helper", "stdin"))
 
 	mk("C19", "Producing output is a pure observation of parser state",
-		"interprocedural mutation summaries (may-write analysis over the call graph): no write reachable from an output method targets anything derived from the parser; evaluation is applied to (*Document).Clone results only; Clone deep-copies",
+		"interprocedural mutation summaries (may-write analysis over the call graph; no element store into a list reachable from a parameter): no write reachable from an output method targets anything derived from the parser; evaluation is applied to (*Document).Clone results only; Clone deep-copies",
 		"C19 decides that nothing reachable from Output/OutputDocuments/OutputToWriter/OutputToFile/Documents writes a parser document or a tree it owns: evaluation (which rewrites in place) only ever receives clones, and Clone deep-copies the data.",
 		"DESIGN.md §5 C19, §4.4",
 		[]string{"byte equality of repeated calls (follows from C19.pure + C09, not checked separately)"},
 		nil,
-		ruleOutputPure, ruleCloneContract("C19.clone"), ruleDeepClone, ruleFieldWriterCensus("C19.docs"), ruleQueryMethods("C19.query"), ruleMapRanges, ruleSortedMap)
+		ruleOutputPure, ruleCloneContract("C19.clone"), ruleDeepClone, ruleFieldWriterCensus("C19.docs"), ruleQueryMethods("C19.query"), ruleMapRanges, ruleSortedMap, ruleListsRebuilt("C19.rebuilt"))
 
 	mk("C20", "bklb/kubectl-bkl rewrite only file arguments; all else passes through",
 		"path-effect summaries of wrapper.WrapOrDie and cmd/bklb.main: argv construction, the only store into the argument copy, error paths ending before exec; contracts of ext / findFile (every table extension probed) / FileMatch",
